@@ -811,11 +811,8 @@ func integer(sign int64, s string) (Integer, error) {
 }
 
 func float(sign float64, s string) (Float, error) {
-	bf, _, _ := big.ParseFloat(s, 10, 0, big.ToZero)
-	bf.Mul(big.NewFloat(sign), bf)
-
-	f, _ := bf.Float64()
-	return Float(f), nil
+	f, _ := strconv.ParseFloat(s, 64) // Correctly rounded; ±Inf if out of range.
+	return Float(sign * f), nil
 }
 
 var (
